@@ -64,4 +64,41 @@ typedef long bl_time;
 #define BL_HOURS_NS(h) ((long)(h) * 3600L * 1000000000L)
 #define BL_TSUB(a, b) ((a) - (b))
 
+
+/* ---- std::istringstream over a read-only string, std::getline, operator>>(istream&, string&), string::find(string)
+ * (library models with loops: used by parseChecksum, which is checked BOUNDED only) */
+#ifndef CSMAX
+#define CSMAX 8
+#endif
+typedef struct { bl_sv s; size_t pos; _Bool fail; } bl_iss;
+#define BL_NPOS ((size_t)-1)
+static inline int bl_isspace(int c) { return c == ' ' || (c >= '\t' && c <= '\r'); }
+static inline bl_iss bl_iss_make(bl_sv s) { bl_iss r; r.s = s; r.pos = 0; r.fail = 0; return r; }
+/* std::getline(in, line): characters up to (not including) the next '\n', which is consumed; fails when nothing is left */
+static inline _Bool bl_getline(bl_iss *in, bl_sv *line) {
+  if (in->fail || in->pos >= in->s.n) { in->fail = 1; return 0; }
+  size_t k = in->pos;
+  while (k < in->s.n && in->s.p[k] != '\n') k++;
+  line->p = in->s.p + in->pos; line->n = k - in->pos;
+  in->pos = (k < in->s.n) ? k + 1 : k;
+  return 1;
+}
+/* in >> word: skips leading whitespace, reads up to the next whitespace; fails when no character is read */
+static inline _Bool bl_iss_read_word(bl_iss *in, bl_sv *w) {
+  if (in->fail) return 0;
+  size_t k = in->pos;
+  while (k < in->s.n && bl_isspace((unsigned char)in->s.p[k])) k++;
+  size_t b = k;
+  while (k < in->s.n && !bl_isspace((unsigned char)in->s.p[k])) k++;
+  in->pos = k;
+  if (k == b) { in->fail = 1; return 0; }
+  w->p = in->s.p + b; w->n = k - b;
+  return 1;
+}
+static inline _Bool bl_sv_eq(bl_sv a, bl_sv b) { if (a.n != b.n) return 0; for (size_t i = 0; i < a.n; i++) if (a.p[i] != b.p[i]) return 0; return 1; }
+static inline size_t bl_sv_find_sv(bl_sv h, bl_sv nd) {
+  if (nd.n > h.n) return BL_NPOS;
+  for (size_t i = 0; i + nd.n <= h.n; i++) { size_t j = 0; while (j < nd.n && h.p[i + j] == nd.p[j]) j++; if (j == nd.n) return i; }
+  return BL_NPOS;
+}
 #endif
